@@ -186,7 +186,8 @@ for _hist, _max in ((0, 1), (1, 1), (1, 2), (2, 2), (3, 2), (2, 5)):
 # ------------------------------------------------------------------------------ traffic light cycle
 
 
-for _mut in ("cycle_elements setter", "time_offset setter", "TrafficLight.traffic_light_cycle setter", "cycle_elements edited in place and assigned back"):
+for _mut in ("cycle_elements setter", "time_offset setter", "TrafficLight.traffic_light_cycle setter", "cycle_elements edited in place and assigned back",
+             "time_offset set on the cycle object of a TrafficLight, queried through the light"):
 
     @register
     class CycleFresh(History):
@@ -214,6 +215,10 @@ for _mut in ("cycle_elements setter", "time_offset setter", "TrafficLight.traffi
             elif self.mut == "time_offset setter":
                 d["off2"] = F.int("offset2")
                 F.assume(T(d["off2"]) >= 0)
+            elif self.mut.startswith("time_offset set on the cycle object"):
+                d["light"] = F.new(TrafficLight, 7, F.array([0.0, 0.0]), cyc)
+                d["off2"] = F.int("offset2")
+                F.assume(T(d["off2"]) >= 0)
             else:
                 d["light"] = F.new(TrafficLight, 7, F.array([0.0, 0.0]), cyc)
                 d["ds2"], d["ss2"], d["off2"], d["cyc2"] = _cycle2(F)
@@ -230,6 +235,8 @@ for _mut in ("cycle_elements setter", "time_offset setter", "TrafficLight.traffi
                 F.setattr(inp["cyc"], "cycle_elements", inp["elems2"])
             elif self.mut == "time_offset setter":
                 F.setattr(inp["cyc"], "time_offset", inp["off2"])
+            elif self.mut.startswith("time_offset set on the cycle object"):
+                F.setattr(F.attr(inp["light"], "traffic_light_cycle"), "time_offset", inp["off2"])  # the light is asked again at the same t
             else:
                 F.setattr(inp["light"], "traffic_light_cycle", inp["cyc2"])
             return F.method(q, "get_state_at_time_step", inp["t"])
